@@ -906,6 +906,13 @@ int cp_rsa_ver(uint8_t *sig, size_t sig_len, const uint8_t *msg, size_t msg_len,
 		return 0;
 	}
 
+	/* The signature has the length of the modulus. */
+	if (sig_len != (size_t)bn_size_bin(pub->crt->n)) {
+		RLC_FREE(h1);
+		RLC_FREE(h2);
+		return 0;
+	}
+
 	pad_len = (!hash ? RLC_MD_LEN : msg_len);
 
 #if CP_RSAPD == PKCS2
